@@ -80,7 +80,8 @@ def exp_str(v):
     """a dyadic value as a decimal string in exponent notation without a point: 2.5 -> '25e-1'"""
     q = Fraction(v); k = 0
     while q.denominator != 1: q *= 10; k += 1
-    return '%de-%d' % (q.numerator, k) if k else '%de0' % q.numerator
+    e_ = 'E' if (q.numerator // 3) % 2 else 'e'          # (both spellings of the exponent marker)
+    return '%d%s-%d' % (q.numerator, e_, k) if k else '%d%s0' % (q.numerator, e_)
 
 def build_carrier(name, vals):
     import numpy as np
@@ -92,6 +93,13 @@ def build_carrier(name, vals):
     if name == 'list_str': return [dec_str(v) for v in vals]
     if name == 'arr_str': return np.array([dec_str(v) for v in vals])
     if name == 'npstr': return np.str_(dec_str(vals[0]))
+    if name.startswith('fxp_src:'):
+        # the values handed over by ANOTHER fixed-point object that holds them exactly (word W, fraction F; built from Python ints - an integer value
+        # type - or from floats; an array, or a 0-d object for one value with shape 's')
+        import lib as _lib
+        fx = _lib.impl(); _, W, F, kind, shp = name.split(':'); W = int(W); F = int(F)
+        src_vals = [int(v) for v in vals] if kind == 'int' else [float(v) for v in vals]
+        return fx.Fxp(src_vals[0] if shp == 's' else src_vals, True, W, F)
     if name == 'decimal': return Decimal(vals[0])
     if name == 'list_dec_first': return [Decimal(vals[0])] + [float(v) for v in vals[1:]]      # (a Decimal first: the list takes the Python-object path)
     if name == 'decimal_long': return Decimal(vals[0])                  # (vals are decimal STRINGS with more digits than a double holds)
